@@ -446,13 +446,17 @@ def pFac (integrate : Bool) (b Xl Xn Xm : α) : α :=
   else 0
 
 /-- buoyant force of one particle class (l.3231-3242); `Mp` are the state masses `M_p[i]` -/
-def fbOf (soluble : Bool) (rho rho_a rho_p nbe pfac : α) (Mp : List α) : α :=
+def fbOf (soluble : Bool) (neutralised : Bool) (rho rho_a rho_p nbe pfac : α) (Mp : List α) : α :=
   let mraw := Mp.map (fun m => m / nbe)
   -- `PlumeParticle.update` -> `properties` clips negative masses IN PLACE (`m[m<0] = 0.`, soluble particles with
   -- positive total mass only), and l.3231 sums the clipped array
   let mcl := if soluble && decide (0 < Num.sum mraw) then mraw.map (fun m => if m < 0 then 0 else m) else mraw
   let mp := Num.sum mcl * nbe
-  if rho ≤ rho_p ∧ rho_p ≤ rho then 0
+  -- l.3240 `if self.rho == particles[i].rho_p`: the dissolved-particle neutralisation.  `SingleParticle.properties`
+  -- returns rho_p = seawater.density(T, S, P) of the element's own T, S, P once all injected compounds are below
+  -- `fdis`, bit-identical to the element's `rho`; the test is an exact comparison of those two numbers OF THE CODE, so
+  -- it enters as a flag (`neutralised`), not as a comparison with a density recomputed elsewhere
+  if neutralised then 0
   else (((rho / rho_p) * mp) * (rho_a - rho_p)) * pfac
 
 /-! ## line protocol -/
@@ -511,16 +515,16 @@ def parseCorr : List Arg → Option (List (Particle Float) × List Float)
   | _ => none
 
 
-/-- per particle for `Lmp.closures`: `n:integrate n:issoluble v:[us,nbe,rho_p,Xl,Xn,Xm,x0,y0,z0,x1,y1,z1] v:M_p` -/
-def parseClos : List Arg → Option (List ((Bool × Bool) × List Float × List Float))
+/-- per particle for `Lmp.closures`: `n:integrate n:issoluble n:neutralised v:[us,nbe,rho_p,Xl,Xn,Xm,x0,y0,z0,x1,y1,z1] v:M_p` -/
+def parseClos : List Arg → Option (List ((Bool × Bool × Bool) × List Float × List Float))
   | [] => some []
-  | .n integ :: .n sol :: .v sc :: .v mp :: rest =>
+  | .n integ :: .n sol :: .n neu :: .v sc :: .v mp :: rest =>
     match parseClos rest with
-    | some ps => some (((integ != 0, sol != 0), sc, mp) :: ps)
+    | some ps => some (((integ != 0, sol != 0, neu != 0), sc, mp) :: ps)
     | none => none
   | _ => none
 
-def closures (q1 q0 amb par : List Float) (ps : List ((Bool × Bool) × List Float × List Float)) : Option (List Arg) :=
+def closures (q1 q0 amb par : List Float) (ps : List ((Bool × Bool × Bool) × List Float × List Float)) : Option (List Arg) :=
   match q1, q0, amb, par with
   | [M, Se, He, Jx, Jy, Jz, H, _x, _y, _z, s], [M0, Se0, He0, Jx0, Jy0, Jz0, H0, _x0, _y0, _z0, s0],
     [ua, va, wa, rho_a, rho, rho0], [cpw, pi, g, alpha_j, alpha_Fr] =>
@@ -533,12 +537,12 @@ def closures (q1 q0 amb par : List Float) (ps : List ((Bool × Bool) × List Flo
     let md := entrainment i
     let fe := feOf md rho_a e1.b e1.h pi
     let ds := s - s0
-    let per := ps.map (fun ((integ, sol), sc, mp) =>
+    let per := ps.map (fun ((integ, sol, neu), sc, mp) =>
       let us := sc.getD 0 0
       let up := upOf e1.sin_p e1.cos_p us
       let dtp := dtpOf e1.V fe ds up (sc.getD 4 0) (sc.getD 5 0) ((sc.drop 6).take 3) ((sc.drop 9).take 3)
       let pf := pFac integ e1.b (sc.getD 3 0) (sc.getD 4 0) (sc.getD 5 0)
-      let fb := fbOf sol rho rho_a (sc.getD 2 0) (sc.getD 1 0) pf mp
+      let fb := fbOf sol neu rho rho_a (sc.getD 2 0) (sc.getD 1 0) pf mp
       (up, dtp, pf, fb))
     some [.v [e1.S, e1.T, e1.u, e1.v, e1.w, e1.hvel, e1.V, e1.h, e1.b, e1.sin_p, e1.cos_p, e1.sin_t, e1.cos_t, e1.phi, e1.theta],
           .v [mdShear i, mdForced i, md, fe],
